@@ -139,4 +139,497 @@ theorem parseArgs_print (vs : List PVal) (ts : List LTok) (h : ArgsToks vs ts) :
       simp only [List.cons_append, bind, Except.bind] at ih' ⊢
       rw [skipSym_miss ',' t _ hne, ih']
 
+/-! ## parameters: `name ( args ) "|"?` … -/
+
+inductive ParamsToks : List PParam → List LTok → Prop where
+  | nil : ParamsToks [] []
+  | bar (name : String) (args : List PVal) (ps : List PParam) (ta ts : List LTok) (l1 l2 l3 : Nat)
+      (h : ArgsToks args ta) (hr : ParamsToks ps ts) :
+      ParamsToks (⟨name, args⟩ :: ps) (⟨.ident name, l1⟩ :: ⟨.sym '(', l2⟩ :: ta ++ ⟨.sym '|', l3⟩ :: ts)
+  | bare (name : String) (args : List PVal) (ps : List PParam) (ta ts : List LTok) (l1 l2 : Nat)
+      (h : ArgsToks args ta) (hr : ParamsToks ps ts) :
+      ParamsToks (⟨name, args⟩ :: ps) (⟨.ident name, l1⟩ :: ⟨.sym '(', l2⟩ :: ta ++ ts)
+
+theorem ParamsToks.length_le (ps : List PParam) (ts : List LTok) (h : ParamsToks ps ts) : ps.length ≤ ts.length := by
+  induction h with
+  | nil => simp
+  | bar name args ps ta ts l1 l2 l3 h hr ih => simp only [List.length_cons, List.length_append]; omega
+  | bare name args ps ta ts l1 l2 h hr ih => simp only [List.length_cons, List.length_append]; omega
+
+/-- what follows a parameter list (the comma ending the field) does not start with a bar -/
+theorem ParamsToks.head_not_bar (ps : List PParam) (ts : List LTok) (h : ParamsToks ps ts) (lc : Nat) (rest : List LTok) :
+    ∃ t r, ts ++ ⟨.sym ',', lc⟩ :: rest = t :: r ∧ t.tok ≠ .sym '|' := by
+  cases h with
+  | nil => exact ⟨_, _, rfl, by simp⟩
+  | bar name args ps ta ts l1 l2 l3 h hr => exact ⟨_, _, rfl, by simp⟩
+  | bare name args ps ta ts l1 l2 h hr => exact ⟨_, _, rfl, by simp⟩
+
+theorem parseParams_print (ps : List PParam) (ts : List LTok) (h : ParamsToks ps ts) :
+    ∀ (vf g last lc : Nat) (rest : List LTok), 2 * ts.length ≤ vf → ps.length + 1 ≤ g →
+    parseParams vf g last (ts ++ ⟨.sym ',', lc⟩ :: rest) = .ok (ps, ⟨.sym ',', lc⟩ :: rest) := by
+  induction h with
+  | nil =>
+    intro vf g last lc rest _ hg
+    cases g with
+    | zero => omega
+    | succ g => simp [parseParams]
+  | bar name args ps ta ts l1 l2 l3 h hr ih =>
+    intro vf g last lc rest hvf hg
+    cases g with
+    | zero => simp at hg
+    | succ g =>
+      simp only [List.length_cons, List.length_append] at hvf
+      simp only [List.length_cons, Nat.add_le_add_iff_right] at hg
+      have hl := ArgsToks.length_le args ta h
+      simp only [List.cons_append, List.append_assoc, parseParams]
+      rw [parseArgs_print args ta h vf _ l1 _ (by omega) (by simp only [List.length_append, List.length_cons]; omega)]
+      simp only [bind, Except.bind, skipSym_hit]
+      rw [ih vf g l1 lc rest (by omega) hg]
+  | bare name args ps ta ts l1 l2 h hr ih =>
+    intro vf g last lc rest hvf hg
+    cases g with
+    | zero => simp at hg
+    | succ g =>
+      simp only [List.length_cons, List.length_append] at hvf
+      simp only [List.length_cons, Nat.add_le_add_iff_right] at hg
+      have hl := ArgsToks.length_le args ta h
+      obtain ⟨t, r, e, hne⟩ := ParamsToks.head_not_bar ps ts hr lc rest
+      simp only [List.cons_append, List.append_assoc, parseParams]
+      rw [parseArgs_print args ta h vf _ l1 _ (by omega) (by simp only [List.length_append, List.length_cons]; omega)]
+      simp only [bind, Except.bind]
+      have ih' := ih vf g l1 lc rest (by omega) hg
+      rw [e] at ih' ⊢
+      rw [skipSym_miss '|' t r hne, ih']
+
+/-! ## struct fields: `name @ id : type "|"? params ,` … up to `}` -/
+
+inductive FieldToks : PField → List LTok → Prop where
+  | bar (name id : String) (ty : PTy) (ps : List PParam) (tty tps : List LTok) (l la lid lc lb lcomma : Nat)
+      (ht : TyToks ty tty) (hp : ParamsToks ps tps) :
+      FieldToks ⟨name, id, ty, ps, l⟩
+        (⟨.ident name, l⟩ :: ⟨.sym '@', la⟩ :: ⟨.num id, lid⟩ :: ⟨.sym ':', lc⟩ :: tty ++ ⟨.sym '|', lb⟩ :: tps ++ [⟨.sym ',', lcomma⟩])
+  | bare (name id : String) (ty : PTy) (ps : List PParam) (tty tps : List LTok) (l la lid lc lcomma : Nat)
+      (ht : TyToks ty tty) (hp : ParamsToks ps tps) :
+      FieldToks ⟨name, id, ty, ps, l⟩
+        (⟨.ident name, l⟩ :: ⟨.sym '@', la⟩ :: ⟨.num id, lid⟩ :: ⟨.sym ':', lc⟩ :: tty ++ tps ++ [⟨.sym ',', lcomma⟩])
+
+inductive FieldsToks : List PField → List LTok → Prop where
+  | nil : FieldsToks [] []
+  | cons (f : PField) (fs : List PField) (tf ts : List LTok) (h : FieldToks f tf) (hr : FieldsToks fs ts) :
+      FieldsToks (f :: fs) (tf ++ ts)
+
+theorem FieldToks.length_pos (f : PField) (tf : List LTok) (h : FieldToks f tf) : 1 ≤ tf.length := by
+  cases h <;> simp
+
+theorem FieldsToks.length_le (fs : List PField) (ts : List LTok) (h : FieldsToks fs ts) : fs.length ≤ ts.length := by
+  induction h with
+  | nil => simp
+  | cons f fs tf ts h hr ih =>
+    have := FieldToks.length_pos f tf h
+    simp only [List.length_cons, List.length_append]; omega
+
+/-- one field, then whatever parses the rest -/
+theorem parseFields_step (f : PField) (tf : List LTok) (h : FieldToks f tf) (vf g last : Nat) (rest : List LTok)
+    (hvf : 2 * tf.length ≤ vf) :
+    parseFields vf (g + 1) last (tf ++ rest) = (do
+      let (fs, r9) ← parseFields vf g f.line rest
+      .ok (f :: fs, r9)) := by
+  cases h with
+  | bar name id ty ps tty tps l la lid lc lb lcomma ht hp =>
+    simp only [List.length_cons, List.length_append, List.length_singleton] at hvf
+    have hd := (TyToks.depth_le ty tty ht).1
+    simp only [List.cons_append, List.append_assoc, List.nil_append, parseFields, expectIdent, expectSym, expectNum, bind,
+      Except.bind, beq_self_eq_true, ↓reduceIte]
+    rw [parseType_print ty tty ht vf l _ (by omega)]
+    simp only [skipSym_hit, List.singleton_append]
+    rw [parseParams_print ps tps hp vf _ l lcomma rest (by omega)
+      (by have := ParamsToks.length_le ps tps hp; simp only [List.length_append, List.length_cons]; omega)]
+    simp only [expectSym, beq_self_eq_true, ↓reduceIte]
+  | bare name id ty ps tty tps l la lid lc lcomma ht hp =>
+    simp only [List.length_cons, List.length_append, List.length_singleton] at hvf
+    have hd := (TyToks.depth_le ty tty ht).1
+    obtain ⟨t, r, e, hne⟩ := ParamsToks.head_not_bar ps tps hp lcomma rest
+    simp only [List.cons_append, List.append_assoc, List.nil_append, parseFields, expectIdent, expectSym, expectNum, bind,
+      Except.bind, beq_self_eq_true, ↓reduceIte]
+    rw [parseType_print ty tty ht vf l _ (by omega)]
+    simp only [List.singleton_append]
+    have hpp := parseParams_print ps tps hp vf ((tps ++ ⟨.sym ',', lcomma⟩ :: rest).length + 1) l lcomma rest (by omega)
+      (by have := ParamsToks.length_le ps tps hp; simp only [List.length_append, List.length_cons]; omega)
+    rw [e] at hpp ⊢
+    rw [skipSym_miss '|' t r hne, hpp]
+    simp only [expectSym, beq_self_eq_true, ↓reduceIte]
+
+theorem parseFields_print (fs : List PField) (ts : List LTok) (h : FieldsToks fs ts) :
+    ∀ (vf g last lb : Nat) (rest : List LTok), 2 * ts.length ≤ vf → fs.length + 1 ≤ g →
+    parseFields vf g last (ts ++ ⟨.sym '}', lb⟩ :: rest) = .ok (fs, ⟨.sym '}', lb⟩ :: rest) := by
+  induction h with
+  | nil =>
+    intro vf g last lb rest _ hg
+    cases g with
+    | zero => omega
+    | succ g => simp [parseFields]
+  | cons f fs tf ts h hr ih =>
+    intro vf g last lb rest hvf hg
+    cases g with
+    | zero => simp at hg
+    | succ g =>
+      simp only [List.length_append] at hvf
+      simp only [List.length_cons, Nat.add_le_add_iff_right] at hg
+      rw [List.append_assoc, parseFields_step f tf h vf g last _ (by omega), ih vf g f.line lb rest (by omega) hg]
+      rfl
+
+/-! ## enumerators `name = value ,` and extension fields `name : value ,`, up to `}` -/
+
+inductive EnumItemsToks : List (String × PVal × Nat) → List LTok → Prop where
+  | nil : EnumItemsToks [] []
+  | cons (name : String) (v : PVal) (l le lc : Nat) (tv : List LTok) (es : List (String × PVal × Nat)) (ts : List LTok)
+      (h : ValToks v tv) (hr : EnumItemsToks es ts) :
+      EnumItemsToks ((name, v, l) :: es) (⟨.ident name, l⟩ :: ⟨.sym '=', le⟩ :: tv ++ ⟨.sym ',', lc⟩ :: ts)
+
+theorem EnumItemsToks.length_le (es : List (String × PVal × Nat)) (ts : List LTok) (h : EnumItemsToks es ts) :
+    es.length ≤ ts.length := by
+  induction h with
+  | nil => simp
+  | cons name v l le lc tv es ts h hr ih => simp only [List.length_cons, List.length_append]; omega
+
+theorem parseEnumItems_print (es : List (String × PVal × Nat)) (ts : List LTok) (h : EnumItemsToks es ts) :
+    ∀ (vf g last lb : Nat) (rest : List LTok), 2 * ts.length ≤ vf → es.length + 1 ≤ g →
+    parseEnumItems vf g last (ts ++ ⟨.sym '}', lb⟩ :: rest) = .ok (es, ⟨.sym '}', lb⟩ :: rest) := by
+  induction h with
+  | nil =>
+    intro vf g last lb rest _ hg
+    cases g with
+    | zero => omega
+    | succ g => simp [parseEnumItems]
+  | cons name v l le lc tv es ts h hr ih =>
+    intro vf g last lb rest hvf hg
+    cases g with
+    | zero => simp at hg
+    | succ g =>
+      simp only [List.length_cons, List.length_append] at hvf
+      simp only [List.length_cons, Nat.add_le_add_iff_right] at hg
+      simp only [List.cons_append, List.append_assoc, parseEnumItems, expectIdent, expectSym, bind, Except.bind,
+        beq_self_eq_true, ↓reduceIte]
+      rw [parseValue_ok v tv h vf l _ (by omega)]
+      simp only [beq_self_eq_true, ↓reduceIte]
+      rw [ih vf g l lb rest (by omega) hg]
+
+inductive ExtFieldsToks : List (String × PVal) → List LTok → Prop where
+  | nil : ExtFieldsToks [] []
+  | cons (name : String) (v : PVal) (l lc lcomma : Nat) (tv : List LTok) (fs : List (String × PVal)) (ts : List LTok)
+      (h : ValToks v tv) (hr : ExtFieldsToks fs ts) :
+      ExtFieldsToks ((name, v) :: fs) (⟨.ident name, l⟩ :: ⟨.sym ':', lc⟩ :: tv ++ ⟨.sym ',', lcomma⟩ :: ts)
+
+theorem ExtFieldsToks.length_le (fs : List (String × PVal)) (ts : List LTok) (h : ExtFieldsToks fs ts) :
+    fs.length ≤ ts.length := by
+  induction h with
+  | nil => simp
+  | cons name v l lc lcomma tv fs ts h hr ih => simp only [List.length_cons, List.length_append]; omega
+
+theorem parseExtFields_print (fs : List (String × PVal)) (ts : List LTok) (h : ExtFieldsToks fs ts) :
+    ∀ (vf g last lb : Nat) (rest : List LTok), 2 * ts.length ≤ vf → fs.length + 1 ≤ g →
+    parseExtFields vf g last (ts ++ ⟨.sym '}', lb⟩ :: rest) = .ok (fs, ⟨.sym '}', lb⟩ :: rest) := by
+  induction h with
+  | nil =>
+    intro vf g last lb rest _ hg
+    cases g with
+    | zero => omega
+    | succ g => simp [parseExtFields]
+  | cons name v l lc lcomma tv fs ts h hr ih =>
+    intro vf g last lb rest hvf hg
+    cases g with
+    | zero => simp at hg
+    | succ g =>
+      simp only [List.length_cons, List.length_append] at hvf
+      simp only [List.length_cons, Nat.add_le_add_iff_right] at hg
+      simp only [List.cons_append, List.append_assoc, parseExtFields, expectIdent, expectSym, bind, Except.bind,
+        beq_self_eq_true, ↓reduceIte]
+      rw [parseValue_ok v tv h vf l _ (by omega)]
+      simp only [beq_self_eq_true, ↓reduceIte]
+      rw [ih vf g l lb rest (by omega) hg]
+
+/-! ## binding items: extension fields and `signal name { … } ,` blocks -/
+
+inductive ImplItemsToks : List PItem → List LTok → Prop where
+  | nil : ImplItemsToks [] []
+  | field (name : String) (v : PVal) (l lc lcomma : Nat) (tv : List LTok) (is : List PItem) (ts : List LTok)
+      (h : ValToks v tv) (hr : ImplItemsToks is ts) :
+      ImplItemsToks (.field name v :: is) (⟨.ident name, l⟩ :: ⟨.sym ':', lc⟩ :: tv ++ ⟨.sym ',', lcomma⟩ :: ts)
+  | signal (name : String) (fs : List (String × PVal)) (l ln lo lb lcomma : Nat) (tf : List LTok) (is : List PItem)
+      (ts : List LTok) (h : ExtFieldsToks fs tf) (hne : fs ≠ []) (hr : ImplItemsToks is ts) :
+      ImplItemsToks (.signal name fs l :: is)
+        (⟨.ident "signal", l⟩ :: ⟨.ident name, ln⟩ :: ⟨.sym '{', lo⟩ :: tf ++ ⟨.sym '}', lb⟩ :: ⟨.sym ',', lcomma⟩ :: ts)
+
+theorem ImplItemsToks.length_le (is : List PItem) (ts : List LTok) (h : ImplItemsToks is ts) : is.length ≤ ts.length := by
+  induction h with
+  | nil => simp
+  | field name v l lc lcomma tv is ts h hr ih => simp only [List.length_cons, List.length_append]; omega
+  | signal name fs l ln lo lb lcomma tf is ts h hne hr ih => simp only [List.length_cons, List.length_append]; omega
+
+theorem parseImplItems_print (is : List PItem) (ts : List LTok) (h : ImplItemsToks is ts) :
+    ∀ (vf g last lb : Nat) (rest : List LTok), 2 * ts.length ≤ vf → is.length + 1 ≤ g →
+    parseImplItems vf g last (ts ++ ⟨.sym '}', lb⟩ :: rest) = .ok (is, ⟨.sym '}', lb⟩ :: rest) := by
+  induction h with
+  | nil =>
+    intro vf g last lb rest _ hg
+    cases g with
+    | zero => omega
+    | succ g => simp [parseImplItems]
+  | field name v l lc lcomma tv is ts h hr ih =>
+    intro vf g last lb rest hvf hg
+    cases g with
+    | zero => simp at hg
+    | succ g =>
+      simp only [List.length_cons, List.length_append] at hvf
+      simp only [List.length_cons, Nat.add_le_add_iff_right] at hg
+      have step : parseImplItems vf (g + 1) last
+          (⟨.ident name, l⟩ :: ⟨.sym ':', lc⟩ :: (tv ++ ⟨.sym ',', lcomma⟩ :: (ts ++ ⟨.sym '}', lb⟩ :: rest))) = (do
+            let (v', r3) ← parseValue vf l (tv ++ ⟨.sym ',', lcomma⟩ :: (ts ++ ⟨.sym '}', lb⟩ :: rest))
+            let (_, r4) ← expectSym ',' l r3
+            let (is', r5) ← parseImplItems vf g l r4
+            .ok (.field name v' :: is', r5)) := by
+        by_cases hn : name = "signal"
+        · subst hn; simp only [parseImplItems, expectIdent, expectSym, bind, Except.bind, beq_self_eq_true, ↓reduceIte]
+        · simp only [parseImplItems, expectIdent, expectSym, bind, Except.bind, beq_self_eq_true, ↓reduceIte]
+      simp only [List.cons_append, List.append_assoc]
+      rw [step, parseValue_ok v tv h vf l _ (by omega)]
+      simp only [expectSym, bind, Except.bind, beq_self_eq_true, ↓reduceIte]
+      rw [ih vf g l lb rest (by omega) hg]
+  | signal name fs l ln lo lb' lcomma tf is ts h hne hr ih =>
+    intro vf g last lb rest hvf hg
+    cases g with
+    | zero => simp at hg
+    | succ g =>
+      simp only [List.length_cons, List.length_append] at hvf
+      simp only [List.length_cons, Nat.add_le_add_iff_right] at hg
+      have hl := ExtFieldsToks.length_le fs tf h
+      simp only [List.cons_append, List.append_assoc, parseImplItems]
+      rw [parseExtFields_print fs tf h vf _ l lb' _ (by omega)
+        (by simp only [List.length_append, List.length_cons]; omega)]
+      have he : fs.isEmpty = false := by cases fs <;> simp_all
+      simp only [bind, Except.bind, he, Bool.false_eq_true, ↓reduceIte, expectSym, beq_self_eq_true]
+      rw [ih vf g l lb rest (by omega) hg]
+
+/-! ## methods and module paths -/
+
+inductive MethodsToks : List PMethod → List LTok → Prop where
+  | nil : MethodsToks [] []
+  | cons (name inp id out : String) (l l1 l2 l3 l4 l5 l6 l7 l8 l9 : Nat) (ms : List PMethod) (ts : List LTok)
+      (hr : MethodsToks ms ts) :
+      MethodsToks (⟨name, inp, id, out, l⟩ :: ms)
+        (⟨.ident "method", l⟩ :: ⟨.ident name, l1⟩ :: ⟨.sym '(', l2⟩ :: ⟨.ident inp, l3⟩ :: ⟨.sym ')', l4⟩ ::
+         ⟨.sym '@', l5⟩ :: ⟨.num id, l6⟩ :: ⟨.ident "returns", l7⟩ :: ⟨.ident out, l8⟩ :: ⟨.sym ',', l9⟩ :: ts)
+
+theorem MethodsToks.length_le (ms : List PMethod) (ts : List LTok) (h : MethodsToks ms ts) : ms.length ≤ ts.length := by
+  induction h with
+  | nil => simp
+  | cons name inp id out l l1 l2 l3 l4 l5 l6 l7 l8 l9 ms ts hr ih => simp only [List.length_cons]; omega
+
+theorem parseMethods_print (ms : List PMethod) (ts : List LTok) (h : MethodsToks ms ts) :
+    ∀ (g last lb : Nat) (rest : List LTok), ms.length + 1 ≤ g →
+    parseMethods g last (ts ++ ⟨.sym '}', lb⟩ :: rest) = .ok (ms, ⟨.sym '}', lb⟩ :: rest) := by
+  induction h with
+  | nil =>
+    intro g last lb rest hg
+    cases g with
+    | zero => omega
+    | succ g => simp [parseMethods]
+  | cons name inp id out l l1 l2 l3 l4 l5 l6 l7 l8 l9 ms ts hr ih =>
+    intro g last lb rest hg
+    cases g with
+    | zero => simp at hg
+    | succ g =>
+      simp only [List.length_cons, Nat.add_le_add_iff_right] at hg
+      simp only [List.cons_append, parseMethods, expectKw, expectIdent, expectSym, expectNum, bind, Except.bind,
+        beq_self_eq_true, ↓reduceIte]
+      rw [ih g l lb rest hg]
+
+inductive ModPathToks : List String → List LTok → Prop where
+  | one (s : String) (l : Nat) : ModPathToks [s] [⟨.ident s, l⟩]
+  | more (s : String) (l ld : Nat) (ps : List String) (ts : List LTok) (hr : ModPathToks ps ts) :
+      ModPathToks (s :: ps) (⟨.ident s, l⟩ :: ⟨.sym '.', ld⟩ :: ts)
+
+theorem ModPathToks.length_le (ps : List String) (ts : List LTok) (h : ModPathToks ps ts) : ps.length ≤ ts.length := by
+  induction h with
+  | one s l => simp
+  | more s l ld ps ts hr ih => simp only [List.length_cons]; omega
+
+theorem parseModPath_print (ps : List String) (ts : List LTok) (h : ModPathToks ps ts) :
+    ∀ (g last lsemi : Nat) (rest : List LTok), ps.length ≤ g →
+    parseModPath g last (ts ++ ⟨.sym ';', lsemi⟩ :: rest) = .ok (ps, ⟨.sym ';', lsemi⟩ :: rest) := by
+  induction h with
+  | one s l =>
+    intro g last lsemi rest hg
+    cases g with
+    | zero => simp at hg
+    | succ g => simp [parseModPath, expectIdent, bind, Except.bind]
+  | more s l ld ps ts hr ih =>
+    intro g last lsemi rest hg
+    cases g with
+    | zero => simp at hg
+    | succ g =>
+      simp only [List.length_cons, Nat.add_le_add_iff_right] at hg
+      simp only [List.cons_append, parseModPath, expectIdent, bind, Except.bind]
+      rw [ih g l lsemi rest hg]
+
+/-! ## declarations, files -/
+
+theorem skipKw_hit (kw : String) (l : Nat) (r : List LTok) : skipKw kw (⟨.ident kw, l⟩ :: r) = r := by
+  simp [skipKw]
+
+theorem skipKw_miss_ident (kw s : String) (l : Nat) (r : List LTok) (h : s ≠ kw) :
+    skipKw kw (⟨.ident s, l⟩ :: r) = ⟨.ident s, l⟩ :: r := by
+  simp [skipKw, h]
+
+theorem skipKw_sym (kw : String) (c : Char) (l : Nat) (r : List LTok) :
+    skipKw kw (⟨.sym c, l⟩ :: r) = ⟨.sym c, l⟩ :: r := rfl
+
+/-- the tokens between `for T` and `{`: nothing, `as N`, or a bare `N` (which must not be `as`) -/
+inductive AliasToks : Option String → List LTok → Prop where
+  | none : AliasToks .none []
+  | withAs (n : String) (l1 l2 : Nat) : AliasToks (some n) [⟨.ident "as", l1⟩, ⟨.ident n, l2⟩]
+  | bare (n : String) (l : Nat) (h : n ≠ "as") : AliasToks (some n) [⟨.ident n, l⟩]
+
+inductive DeclToks : PDecl → List LTok → Prop where
+  | struct (name : String) (fs : List PField) (l ln lo lb : Nat) (tf : List LTok) (h : FieldsToks fs tf) (hne : fs ≠ []) :
+      DeclToks (.struct name fs l)
+        (⟨.ident "struct", l⟩ :: ⟨.ident name, ln⟩ :: ⟨.sym '{', lo⟩ :: tf ++ [⟨.sym '}', lb⟩])
+  | enum (name : String) (es : List (String × PVal × Nat)) (l ln lo lb : Nat) (te : List LTok) (h : EnumItemsToks es te) :
+      DeclToks (.enum name es l)
+        (⟨.ident "enum", l⟩ :: ⟨.ident name, ln⟩ :: ⟨.sym '{', lo⟩ :: te ++ [⟨.sym '}', lb⟩])
+  | impl (proto ty : String) (alias : Option String) (is : List PItem) (l lp lf lt lo lb : Nat) (ta ti : List LTok)
+      (ha : AliasToks alias ta) (h : ImplItemsToks is ti) (hne : is ≠ []) :
+      DeclToks (.impl proto ty alias is l)
+        (⟨.ident "impl", l⟩ :: ⟨.ident proto, lp⟩ :: ⟨.ident "for", lf⟩ :: ⟨.ident ty, lt⟩ :: ta ++
+          ⟨.sym '{', lo⟩ :: ti ++ [⟨.sym '}', lb⟩])
+  | service (name id : String) (ms : List PMethod) (l ln la li lo lb : Nat) (tm : List LTok) (h : MethodsToks ms tm)
+      (hne : ms ≠ []) :
+      DeclToks (.service name id ms l)
+        (⟨.ident "service", l⟩ :: ⟨.ident name, ln⟩ :: ⟨.sym '@', la⟩ :: ⟨.num id, li⟩ :: ⟨.sym '{', lo⟩ :: tm ++ [⟨.sym '}', lb⟩])
+  | device (name : String) (fs : List (String × PVal)) (l ln lo lb : Nat) (tf : List LTok) (h : ExtFieldsToks fs tf)
+      (hne : fs ≠ []) :
+      DeclToks (.device name fs l)
+        (⟨.ident "device", l⟩ :: ⟨.ident name, ln⟩ :: ⟨.sym '{', lo⟩ :: tf ++ [⟨.sym '}', lb⟩])
+  | mod (ps : List String) (l lsemi : Nat) (tp : List LTok) (h : ModPathToks ps tp) :
+      DeclToks (.mod ps l) (⟨.ident "mod", l⟩ :: tp ++ [⟨.sym ';', lsemi⟩])
+
+theorem isEmpty_false {α : Type} (l : List α) (h : l ≠ []) : l.isEmpty = false := by
+  cases l <;> simp_all
+
+theorem DeclToks.length_pos (d : PDecl) (ts : List LTok) (h : DeclToks d ts) : 1 ≤ ts.length := by
+  cases h <;> simp
+
+/-- **a declaration parses back**, whatever follows -/
+theorem parseDecl_print (d : PDecl) (ts : List LTok) (h : DeclToks d ts) (last : Nat) (rest : List LTok) :
+    parseDecl last (ts ++ rest) = .ok (d, rest) := by
+  cases h with
+  | struct name fs l ln lo lb tf h hne =>
+    have hl := FieldsToks.length_le fs tf h
+    simp only [List.cons_append, List.append_assoc, List.singleton_append, List.nil_append, parseDecl, expectIdent,
+      expectSym, bind, Except.bind, beq_self_eq_true, ↓reduceIte]
+    rw [parseFields_print fs tf h _ _ l lb rest (by simp only [List.length_append, List.length_cons]; omega)
+      (by simp only [List.length_append, List.length_cons]; omega)]
+    simp only [isEmpty_false fs hne, Bool.false_eq_true, ↓reduceIte, beq_self_eq_true]
+  | enum name es l ln lo lb te h =>
+    have hl := EnumItemsToks.length_le es te h
+    simp only [List.cons_append, List.append_assoc, List.singleton_append, List.nil_append, parseDecl, expectIdent,
+      expectSym, bind, Except.bind, beq_self_eq_true, ↓reduceIte]
+    rw [parseEnumItems_print es te h _ _ l lb rest (by simp only [List.length_append, List.length_cons]; omega)
+      (by simp only [List.length_append, List.length_cons]; omega)]
+    simp only [beq_self_eq_true, ↓reduceIte]
+  | impl proto ty alias is l lp lf lt lo lb ta ti ha h hne =>
+    have hl := ImplItemsToks.length_le is ti h
+    have body : ∀ (r6 : List LTok), r6 = ti ++ ⟨.sym '}', lb⟩ :: rest →
+        (do
+          let (is', r7) ← parseImplItems (2 * r6.length + 2) (r6.length + 1) l r6
+          if is'.isEmpty then (.error ⟨"impl needs a field", lineOf r7 l⟩ : Except SynErr (PDecl × List LTok)) else
+          let (_, r8) ← expectSym '}' l r7
+          .ok (.impl proto ty alias is' l, r8)) = .ok (.impl proto ty alias is l, rest) := by
+      intro r6 e
+      subst e
+      rw [parseImplItems_print is ti h _ _ l lb rest (by simp only [List.length_append, List.length_cons]; omega)
+        (by simp only [List.length_append, List.length_cons]; omega)]
+      simp only [bind, Except.bind, isEmpty_false is hne, Bool.false_eq_true, ↓reduceIte, expectSym, beq_self_eq_true]
+    cases ha with
+    | none =>
+      simp only [List.cons_append, List.append_assoc, List.singleton_append, List.nil_append, parseDecl, expectIdent,
+        expectKw, expectSym, bind, Except.bind, beq_self_eq_true, ↓reduceIte, skipKw_sym]
+      exact body _ rfl
+    | withAs n l1 l2 =>
+      simp only [List.cons_append, List.append_assoc, List.singleton_append, List.nil_append, parseDecl, expectIdent,
+        expectKw, expectSym, bind, Except.bind, beq_self_eq_true, ↓reduceIte, skipKw_hit]
+      exact body _ rfl
+    | bare n ln hn =>
+      simp only [List.cons_append, List.append_assoc, List.singleton_append, List.nil_append, parseDecl, expectIdent,
+        expectKw, expectSym, bind, Except.bind, beq_self_eq_true, ↓reduceIte, skipKw_miss_ident "as" n ln _ hn]
+      exact body _ rfl
+  | service name id ms l ln la li lo lb tm h hne =>
+    have hl := MethodsToks.length_le ms tm h
+    simp only [List.cons_append, List.append_assoc, List.singleton_append, List.nil_append, parseDecl, expectIdent,
+      expectSym, expectNum, bind, Except.bind, beq_self_eq_true, ↓reduceIte]
+    rw [parseMethods_print ms tm h _ l lb rest (by simp only [List.length_append, List.length_cons]; omega)]
+    simp only [isEmpty_false ms hne, Bool.false_eq_true, ↓reduceIte, beq_self_eq_true]
+  | device name fs l ln lo lb tf h hne =>
+    have hl := ExtFieldsToks.length_le fs tf h
+    simp only [List.cons_append, List.append_assoc, List.singleton_append, List.nil_append, parseDecl, expectIdent,
+      expectSym, bind, Except.bind, beq_self_eq_true, ↓reduceIte]
+    rw [parseExtFields_print fs tf h _ _ l lb rest (by simp only [List.length_append, List.length_cons]; omega)
+      (by simp only [List.length_append, List.length_cons]; omega)]
+    simp only [isEmpty_false fs hne, Bool.false_eq_true, ↓reduceIte, beq_self_eq_true]
+  | mod ps l lsemi tp h =>
+    have hl := ModPathToks.length_le ps tp h
+    simp only [List.cons_append, List.append_assoc, List.singleton_append, List.nil_append, parseDecl, bind, Except.bind]
+    rw [parseModPath_print ps tp h _ l lsemi rest (by simp only [List.length_append, List.length_cons]; omega)]
+    simp only [expectSym, beq_self_eq_true, ↓reduceIte]
+
+inductive DeclsToks : List PDecl → List LTok → Prop where
+  | nil : DeclsToks [] []
+  | cons (d : PDecl) (ds : List PDecl) (td ts : List LTok) (h : DeclToks d td) (hr : DeclsToks ds ts) :
+      DeclsToks (d :: ds) (td ++ ts)
+
+theorem DeclsToks.length_le (ds : List PDecl) (ts : List LTok) (h : DeclsToks ds ts) : ds.length ≤ ts.length := by
+  induction h with
+  | nil => simp
+  | cons d ds td ts h hr ih =>
+    have := DeclToks.length_pos d td h
+    simp only [List.length_cons, List.length_append]; omega
+
+theorem parseDecls_print (ds : List PDecl) (ts : List LTok) (h : DeclsToks ds ts) :
+    ∀ (g last : Nat), ds.length + 1 ≤ g → parseDecls g last ts = .ok ds := by
+  induction h with
+  | nil =>
+    intro g last hg
+    cases g with
+    | zero => omega
+    | succ g => simp [parseDecls]
+  | cons d ds td ts h hr ih =>
+    intro g last hg
+    cases g with
+    | zero => simp at hg
+    | succ g =>
+      simp only [List.length_cons, Nat.add_le_add_iff_right] at hg
+      have hp := DeclToks.length_pos d td h
+      obtain ⟨t, r, e⟩ : ∃ t r, td ++ ts = t :: r := by
+        cases td with
+        | nil => simp at hp
+        | cons t r => exact ⟨t, r ++ ts, rfl⟩
+      have hd := parseDecl_print d td h last ts
+      rw [e] at hd ⊢
+      simp only [parseDecls, hd, bind, Except.bind]
+      rw [ih g _ hg]
+
+/-- a whole file: `version : "<s>"` and the declarations -/
+inductive FileToks : PFile → List LTok → Prop where
+  | mk (v : String) (l lc lv : Nat) (ds : List PDecl) (ts : List LTok) (h : DeclsToks ds ts) :
+      FileToks ⟨v, l, ds⟩ (⟨.ident "version", l⟩ :: ⟨.sym ':', lc⟩ :: ⟨.str v, lv⟩ :: ts)
+
+/-- **parsing inverts printing**: every printing of a file — any of the optional separators,
+any line numbers, any nesting depth of types and values — parses back to that file -/
+theorem parseFile_print (pf : PFile) (ts : List LTok) (h : FileToks pf ts) : parseFile ts = .ok pf := by
+  cases h with
+  | mk v l lc lv ds ts h =>
+    have hl := DeclsToks.length_le ds ts h
+    simp only [parseFile, expectKw, expectSym, bind, Except.bind, beq_self_eq_true, ↓reduceIte]
+    rw [parseDecls_print ds ts h _ l (by omega)]
+
 end Fcp.Syntax
